@@ -26,6 +26,14 @@ PROBE = "*a* _b_ `c` [d](e) ![f](g) <http://h.i> &amp; \\* ~~j~~ [x] [r]\n\n- k\
 def cases(rng, tier, Case):
     res = []
     n = 250 if tier == "quick" else 8000
+    # a failed look-up in one document must not be remembered for the next
+    for lab in ("x", "zz", "Foo Bar", "r"):
+        for other in ("[a]: /u\n\n", "", "[%s2]: /v\n\n" % lab):
+            docs = [other + "[%s] [%s][] [t][%s] ![%s]" % (lab, lab, lab, lab), "[%s]: /axis 'T'\n\n[%s] [%s][] [t][%s] ![%s]" % (lab, lab, lab, lab, lab),
+                    "[%s]" % lab, "> [%s]: /q\n\n[%s]" % (lab, lab)]
+            for cfg in ("CsW", "Cs"):
+                script = "+%s;" % cfg + ";".join("P" + hx(d) for d in docs)
+                res.append(Case("hist 100 TR %s" % script, "history", {"cfg": cfg, "nest": 100, "docs": [hx(d) for d in docs]}))
     for first in COLLIDERS + BIG:
         for cfg in ("CsW", "CsW34", "nebmliatp"):
             docs = [first, PROBE, first + "\n\n" + PROBE, PROBE]
